@@ -8,6 +8,7 @@ import NetqasmVerif.Driver.Hub
 import NetqasmVerif.Driver.Reject
 import NetqasmVerif.Driver.Msg
 import NetqasmVerif.Driver.Text
+import NetqasmVerif.Driver.Transpile
 open Lean NQ.Drv
 
 def handlers : List (String → Json → Option Json) := [
@@ -20,7 +21,8 @@ def handlers : List (String → Json → Option Json) := [
   handleHub,
   handleReject,
   handleMsg,
-  handleText]
+  handleText,
+  handleTranspile]
 
 def dispatch (j : Json) : Json :=
   match (jField? j "op").bind jStr? with
